@@ -230,6 +230,65 @@ def attr_dispatch_matches(fn_body):
     return out
 
 
+# ---------------------------------------------------------------- successful exits of a function body
+def success_leaves(root):
+    """Expressions whose value a function body can complete with successfully: the leaves in tail position (through blocks, `if`,
+    `match`) and the operands of explicit `return`s anywhere outside closures (also inside loops); diverging leaves, `Err(..)` and the
+    `?` desugaring are not successes."""
+    out = []
+    stack = [root]
+    while stack:
+        n = stack.pop()
+        if not isinstance(n, dict):
+            continue
+        k = n.get("k")
+        if k == "block":
+            for s in n["stmts"]:
+                stack.extend(early_returns(s))
+            if "tail" in n:
+                stack.append(n["tail"])
+            elif n["stmts"] and H.peel(n["stmts"][-1], refs=False).get("k") == "ret":
+                pass        # collected by early_returns
+        elif k == "semi":
+            stack.append(n["e"])
+        elif k == "if":
+            stack.extend(early_returns(n["cond"]))
+            stack.append(n["then"])
+            if "else" in n:
+                stack.append(n["else"])
+        elif k == "match":
+            stack.extend(early_returns(n["scrut"]))
+            for a in n["arms"]:
+                stack.append(a["body"])
+        elif k == "ret":
+            if "e" in n and not H.is_err_exit(n):
+                stack.append(n["e"])
+        else:
+            if n.get("ty") == "!" or H.diverges(n):
+                continue
+            c = H.ctor_of(n)
+            if c and c[1] == "Err":
+                continue
+            stack.extend(x for x in early_returns(n) if x is not n)
+            out.append(n)
+    return out
+
+def early_returns(n):
+    """`return <non-error>` nodes nested in n (not in closures), as ret nodes."""
+    out = []
+    stack = [n]
+    while stack:
+        x = stack.pop()
+        if not isinstance(x, dict) or x.get("k") == "closure":
+            continue
+        if x.get("k") == "ret":
+            if "e" in x and not H.is_err_exit(x) and not H.macro_of(x, "desugar:QuestionMark"):
+                out.append(x)
+            continue
+        stack.extend(H.children(x))
+    return out
+
+
 # ---------------------------------------------------------------- narrowing casts (R01.9 / R02.8), decided by the A1 interval analysis
 def narrowing_rule(F, R, rid, text, pred, floor):
     """Every int-to-int `as` cast in the selected (monomorphic, reachable) functions is value-preserving under the interval analysis,
